@@ -775,6 +775,97 @@ fn family_line(r: &mut Rng, n: usize) -> Vec<Op> {
     ops
 }
 
+/// Probe-chain family: L keys with the same home slot (for every capacity up to 64) form one probe chain;
+/// a MIDDLE entry is removed, then the entry BEFORE it (so that a tombstone is followed by a tombstone, and
+/// the slot behind both is still live), then every key behind both is looked up, an absent key of the same
+/// class is looked up / removed, a new key of the class is inserted (it must reuse the first tombstone) and
+/// everything is looked up again.  Variants: removal order, optional fillers of another residue class (table at
+/// capacity 16), re-insertion of the removed middle key, an epoch bump / moving collection at the end.
+/// Generated in every run (see `gen`), so that a change of the tombstone discipline of `remove`/`insert`
+/// is seen by the per-operation comparison, not only by luck.
+fn chain_line(r: &mut Rng, variant: usize) -> Vec<Op> {
+    let mut ops = Vec::new();
+    let l = 4 + (variant % 3);                       // chain length 4..6
+    let with_fillers = (variant / 3) % 2 == 1;
+    let order = (variant / 6) % 3;                   // 0: middle then before, 1: middle then after, 2: before then middle
+    let tail = (variant / 18) % 4;                   // 0: nothing, 1: epoch, 2: moving collection, 3: re-insert middle
+    let base = 16 + 64 * r.below(8);
+    let mut used: Vec<u64> = Vec::new();
+    let mut chain: Vec<u64> = Vec::new();
+    while chain.len() < l {
+        let k = base + 64 * r.below(200);             // all ≡ base (mod 64): same home for capacity ≤ 64
+        if !used.contains(&k) {
+            used.push(k);
+            chain.push(k);
+        }
+    }
+    let fillers: Vec<u64> = if with_fillers { (0..(3 + r.below(3))).map(|i| 24 + 16 * (i * 4 + 1)).collect() } else { Vec::new() };
+    let mut val = 1u64;
+    let fill_first = r.chance(1, 2);
+    if fill_first {
+        for &k in &fillers {
+            ops.push(Op::Ins(k, val));
+            val += 1;
+        }
+    }
+    for &k in &chain {
+        ops.push(Op::Ins(k, val));
+        val += 1;
+    }
+    if !fill_first {
+        for &k in &fillers {
+            ops.push(Op::Ins(k, val));
+            val += 1;
+        }
+    }
+    let mid = 1 + r.below((l - 2) as u64) as usize;   // 1 ..= l-2
+    let (first, second) = match order {
+        0 => (mid, mid - 1),
+        1 => (mid, mid + 1),
+        _ => (mid - 1, mid),
+    };
+    ops.push(Op::Rem(chain[first]));
+    ops.push(Op::Get(chain[l - 1]));
+    ops.push(Op::Rem(chain[second]));
+    // everything that is still there, behind and before the two holes
+    for (i, &k) in chain.iter().enumerate() {
+        if i != first && i != second {
+            ops.push(Op::Get(k));
+        }
+    }
+    ops.push(Op::Get(chain[first]));
+    let mut absent = base + 64 * (300 + r.below(50));
+    ops.push(if r.chance(1, 2) { Op::Get(absent) } else { Op::Rem(absent) });
+    absent += 64;
+    // a new key of the class reuses the first tombstone; the chain must stay intact
+    ops.push(Op::Ins(absent, val));
+    val += 1;
+    for &k in &chain {
+        ops.push(Op::Get(k));
+    }
+    ops.push(Op::Get(absent));
+    // remove the last of the chain (nothing live behind it), look up the rest
+    ops.push(Op::Rem(chain[l - 1]));
+    for &k in chain.iter().take(l - 1) {
+        ops.push(Op::Get(k));
+    }
+    match tail {
+        1 => ops.push(Op::Epoch),
+        2 => ops.push(Op::Reloc(2 * r.below(1000) + 1, r.below(100000))),
+        3 => {
+            ops.push(Op::Ins(chain[first], val));
+        }
+        _ => {}
+    }
+    if tail == 1 || tail == 3 {
+        for &k in &chain {
+            ops.push(Op::Get(k));
+        }
+    }
+    ops.push(Op::Get(base + 64 * 400));
+    ops
+}
+
 fn random_line(r: &mut Rng, may_hang: bool, may_panic: bool) -> Vec<Op> {
     let mut pool = make_pool(r);
     let mut sh = Shadow::new();
@@ -925,7 +1016,9 @@ pub fn gen(n: usize) {
     let mut out = std::io::BufWriter::new(stdout.lock());
     for i in 0..n {
         // a few lines may run into the known tombstone hang (each costs one watchdog period in hmap-run)
-        let ops = if i % 100 == 7 {
+        let ops = if i % 25 == 3 {
+            chain_line(&mut r, i / 25)
+        } else if i % 100 == 7 {
             family_line(&mut r, 4 + (i / 100) % 21)
         } else if i % 200 == 31 {
             random_line(&mut r, true, false)
